@@ -119,6 +119,9 @@ class PyTranslator:
             raise AnalysisError(f"{self.where}: free name '{n.id}' has no symbolic meaning")
         if isinstance(n, ast.BinOp):
             a, b = self.expr(n.left, env), self.expr(n.right, env)
+            if isinstance(a, sp.Tuple) or isinstance(b, sp.Tuple) or not (hasattr(a, "__add__") and hasattr(b, "__add__")):
+                # sequence arithmetic (tuple concatenation, list repetition): an uninterpreted operation
+                return sp.Function("seq_" + type(n.op).__name__)(a, b)
             if isinstance(n.op, ast.Add):
                 return a + b
             if isinstance(n.op, ast.Sub):
